@@ -140,6 +140,14 @@ func (g config) options() []nack.GeneratorOption {
 	if !g.defInterval {
 		o = append(o, nack.GeneratorInterval(g.interval))
 	}
+	// the order in which options are passed is the caller's: rotate it by the configuration
+	if n := len(o); n > 1 {
+		k := (g.size + g.skip + g.limit) % n
+		o = append(o[k:], o[:k]...)
+		if (g.size+g.limit)%2 == 1 {
+			o[0], o[n-1] = o[n-1], o[0]
+		}
+	}
 	return o
 }
 
@@ -645,7 +653,13 @@ type recWriter struct {
 	interval time.Duration
 	recs     []nackRec
 	other    int64
+	// failMod > 0: the write of every NACK whose media SSRC % failMod == 0 is recorded and then
+	// FAILS (a transient error of the next writer); requests for other streams are independent
+	failMod uint32
+	failed  int64
 }
+
+var errRTCPWriter = errors.New("verif: next RTCP writer fails")
 
 func (w *recWriter) Write(pkts []rtcp.Packet, _ interceptor.Attributes) (int, error) {
 	at := time.Since(w.t0)
@@ -665,6 +679,10 @@ func (w *recWriter) Write(pkts []rtcp.Packet, _ interceptor.Attributes) (int, er
 			})
 		}
 		w.recs = append(w.recs, r)
+		if w.failMod > 0 && n.MediaSSRC%w.failMod == 0 {
+			w.failed++
+			return 0, errRTCPWriter
+		}
 	}
 	return 0, nil
 }
@@ -762,6 +780,10 @@ func newEngine(c *vf.Case, g config) (*engine, error) {
 	}
 	e := &engine{c: c, g: g, icpt: i, bySSRC: map[uint32]*stream{}, h: vf.NewHash(), lastUnbindTick: -1}
 	e.w = &recWriter{t0: time.Now(), interval: g.interval}
+	if c.R.Chance(0.2) {
+		e.w.failMod = uint32(c.R.Pick(1, 2, 2, 3))
+		c.Add("cases_whose_rtcp_writer_fails_for_some_streams", 1)
+	}
 	i.BindRTCPWriter(e.w)
 	synctest.Wait() // the loop goroutine has created its ticker (at T0) and is parked
 	return e, nil
